@@ -189,6 +189,49 @@ def assigned_names(stmts):
     return out
 
 
+MUTATORS = {'append', 'extend', 'insert', 'add', 'update', 'pop', 'popitem', 'remove', 'discard', 'clear', 'setdefault', 'sort', 'reverse', 'appendleft'}
+
+
+def mutated_names(stmts):
+    """local names whose container is changed in place in a block: x[...] = ..., x[...] += ..., del x[...], x.append(...) ..."""
+    out = set()
+    for s in stmts:
+        for n in ast.walk(s):
+            ts = []
+            if isinstance(n, ast.Assign):
+                ts = n.targets
+            elif isinstance(n, (ast.AugAssign, ast.AnnAssign)):
+                ts = [n.target]
+            elif isinstance(n, ast.Delete):
+                ts = n.targets
+            for t in ts:
+                for x in (t.elts if isinstance(t, (ast.Tuple, ast.List)) else [t]):
+                    if isinstance(x, ast.Subscript) and isinstance(x.value, ast.Name):
+                        out.add(x.value.id)
+            if isinstance(n, ast.Call) and isinstance(n.func, ast.Attribute) and isinstance(n.func.value, ast.Name) and n.func.attr in MUTATORS:
+                out.add(n.func.value.id)
+    return out
+
+
+class StaleContainer:
+    """a plain list / dict / set that the body of a cut loop changes in place and that no loop spec replaced by a model: at an arbitrary
+    iteration (and after the loop) its content is unknown, so every use is refused instead of silently seeing the value from before the loop"""
+    def __init__(self, name):
+        self.name = name
+
+    def _no(self, what):
+        raise Unsupported(f'{what} of `{self.name}`: the container is changed inside a loop that is cut by an invariant and has no model there')
+
+    def sym_contains(self, I, item): self._no('membership test')
+    def sym_getitem(self, I, idx): self._no('lookup')
+    def sym_setitem(self, I, idx, v): self._no('store')
+    def sym_method(self, I, name, a, k): self._no(f'.{name}()')
+    def sym_view(self, I): self._no('iteration')
+    def sym_len(self, I): self._no('len()')
+    def sym_truth(self, I): self._no('truth value')
+    def sym_eq(self, I, other): self._no('comparison')
+
+
 def heap_assigned(stmts):
     """Attribute / subscript names stored to in a block (syntactic frame of a loop body)."""
     out = set()
@@ -1718,7 +1761,15 @@ class Interp:
                     return k['default']
                 i.raise_('ValueError', 'empty sequence')
             if 'key' in k:
-                raise Unsupported('min/max with key')
+                # a concrete list with a key function: the first element with the smallest / largest key (decided on the path)
+                r = items[0]
+                kr = i.call(k['key'], [r], {})
+                for x in items[1:]:
+                    kx = i.call(k['key'], [x], {})
+                    c = i.compare('<' if ismin else '>', kx, kr)
+                    if c is True or (c is not False and i.e.branch(c, 'minmax-key')):
+                        r, kr = x, kx
+                return r
             r = items[0]
             for x in items[1:]:
                 c = i.compare('<' if ismin else '>', x, r)
@@ -2386,6 +2437,12 @@ class Interp:
             assigned_by_spec = set(Env.written)
         finally:
             Env.written = None
+        for nm in mutated_names(s.body):
+            if nm in assigned_by_spec or nm in getattr(spec, 'keep', ()) or not env.has(nm):
+                continue
+            cur = env.lookup(nm)
+            if type(cur) in (dict, list, set):
+                env.set(nm, StaleContainer(nm))
         for nm, cur in unhavocked:
             # the loop spec did not replace it: initial value or a value of an earlier iteration
             if nm not in assigned_by_spec and nm not in getattr(spec, 'keep', ()):
